@@ -144,8 +144,13 @@ def check(P, rep):
         ge = P.graph(cn_, en_)
         for e in state_effects(ge):
             if e.kind in ('sw', 'sr', 'supd') and key_variant(e.key)[0] == 'TrustedChain':
-                rep.check((e.kind, en_) in (('sw', 'set_trusted_chain'), ('sr', 'remove_trusted_chain')), 'C04.R2', '%s:trusted-chain-writer' % en_,
-                          'TrustedChain(_) is set only by set_trusted_chain and removed only by remove_trusted_chain', esite(ge, e), e.describe()[:120])
+                # the trust set is the owner's: whichever entry changes it (the two single-chain entries, a batch variant added later), the
+                # change is a plain set / remove of TrustedChain(chain) under require_auth of the STORED owner
+                from rules.c06 import role_auth, OWNER
+                nodes_, _stale = role_auth(ge, OWNER)
+                okw = e.kind in ('sw', 'sr') and en_ != '__constructor' and mg(ge, [e.node], nodes_)[0]
+                rep.check(okw, 'C04.R2', '%s:trusted-chain-writer' % en_,
+                          'TrustedChain(_) is set / removed only under require_auth(stored owner)', esite(ge, e), e.describe()[:120])
     if 'is_trusted_chain' in c.entries:
         gq = P.graph(CN, 'is_trusted_chain')
         rts = ret_terms(gq)
